@@ -20,7 +20,7 @@
 
     No proofs in this file. *)
 From Coq Require Import ZArith NArith List Bool.
-From AGH Require Import Base.Run Model.QLogFile Model.QLogBytes.
+From AGH Require Import Base.Run Model.QLogFile Model.QLog Model.QLogBytes.
 Import ListNotations.
 Local Open Scope Z_scope.
 
@@ -86,3 +86,31 @@ Fixpoint b_read_all_from1 (me buf : Z) (c : bytes) (fuel : nat) (s : rstate) : l
     readJSONValue). *)
 Definition read_qlog_ts_prefix (n : Z) (o : bytes -> Z) (line : bytes) : Z :=
   read_qlog_ts o (takeZ line n).
+
+(** Round 8.  qLogReader.seekRecord (search.go) with the state it leaves also
+    when it fails (Model/QLog.v's [seek_record] drops the reader then): result
+    class 0 = nil, 1 = not found, 4 = any other error.  The code does not read
+    the wall clock: the function has no clock input. *)
+Definition seek_record_st (me bf : Z) (older : option Z) (r : reader) : Z * reader :=
+  match older with
+  | None => (0, reader_seek_start r)
+  | Some ts =>
+      let (res, r') := reader_seek_ts me ts r in
+      match res with
+      | RFound => match reader_read_next me bf r' with
+                  | (None, r'') => (4, r'')
+                  | (Some _, r'') => (0, r'')
+                  end
+      | RFellBack => (0, r')
+      | RNotFound => (1, r')
+      | ROther => (4, r')
+      end
+  end.
+
+(** Variant (NOT the code): a cursor later than the wall clock [now] is taken
+    for "nothing can be newer": no look-up, the reader goes to the newest end. *)
+Definition seek_record_clock (now : Z) (me bf : Z) (older : option Z) (r : reader) : Z * reader :=
+  match older with
+  | Some ts => if ts >? now then (0, reader_seek_start r) else seek_record_st me bf older r
+  | None => seek_record_st me bf older r
+  end.
